@@ -9,6 +9,7 @@ CONSTANTS
   MaxOps = 6
   Faults = {"reorg"}
   AllowGap = TRUE
+  Dups = FALSE
   AllowRestart = TRUE
   AllowReorg = TRUE
   Rollups = {}
